@@ -122,11 +122,6 @@ Definition spec_ref_effective (es : list edge) (op : refop) : bool :=
   | RSet l dst => negb (edge_exists l dst es)
   | RClear l => existsb (fun e => N.eqb (e_label e) l) es
   end.
-Definition room_changes (old : row) (m : mutation) : bool :=
-  match m_room m with
-  | Some r => negb (opt_eqb N.eqb (r_room old) (Some r))
-  | None => false
-  end.
 Definition spec_new_rows_edges (m : mutation) (es : list edge) (all : list edge) : list edge :=
   fold_left (fun acc e => insert_edge e acc)
     (flat_map (spec_new_edges (m_row m) (m_date m) es) (m_refs m))
@@ -210,27 +205,11 @@ Definition complete (n : nat) (sigma : list ev) : bool :=
 
 (* known-finding class 1: the schedule contains overlapping read-write windows on one row
    (a Read of a mutation on row x between the Read and the Write of another mutation on x).
-   known-finding class 2: in some serial order of the case's mutations, a mutation that names a
-   room different from the row's room changes no field and no reference: the code then writes
-   nothing ("nothing changed, the node will not be updated") and the acknowledged move is dropped *)
-Definition ignored_move (d : db) (m : mutation) : bool :=
-  match m_kind m, find_row (m_row m) d with
-  | KUpdate, Some old =>
-      room_changes old m &&
-      negb (negb (is_nil (m_assign m)) || existsb (spec_ref_effective (edges_of (m_row m) d)) (m_refs m))
-  | _, _ => false
-  end.
-Fixpoint moves_ok (ms : list mutation) (d : db) (pi : list nat) : bool :=
-  match pi with
-  | [] => true
-  | i :: t => negb (match nth_error ms i with Some m => ignored_move d m | None => false end)
-              && moves_ok ms (apply ms d i) t
-  end.
+   (class 2 — a room move that changes nothing else was acknowledged and dropped — is fixed in
+   /repo by 07628ab; its predicate is gone) *)
 Definition known_C16 (c : c16case) : list Z :=
   match c with
-  | CSched _ d nf ms sigma _ =>
-      (if windows_ok ms [] sigma then [] else [1]) ++
-      (if forallb (moves_ok ms d) (perms (seq 0 (length ms))) then [] else [2])
+  | CSched _ d nf ms sigma _ => if windows_ok ms [] sigma then [] else [1]
   | CNote => []
   end.
 
